@@ -119,6 +119,40 @@ def isinstance_(interp, v, tv, text=''):
     return bool(mine & names)
 
 
+def copy_value(interp, v, deep, memo):
+    """copy.copy / copy.deepcopy of an abstract value: containers and objects get a new identity (their contents too when ``deep``),
+    the class's own __copy__ / __deepcopy__ is honoured, immutable values are themselves."""
+    if id(v) in memo:
+        return memo[id(v)]
+    if isinstance(v, ListV):
+        n = ListV([], v.kind)
+        memo[id(v)] = n
+        n.items = [copy_value(interp, i, deep, memo) if deep else i for i in v.items]
+        return n
+    if isinstance(v, DictV):
+        n = DictV([], default=v.default)
+        memo[id(v)] = n
+        n.pairs = [[copy_value(interp, a, deep, memo) if deep else a, copy_value(interp, b, deep, memo) if deep else b] for a, b in v.pairs]
+        return n
+    if isinstance(v, Obj):
+        hook = interp.get_method(v, '__deepcopy__' if deep else '__copy__') if v.cls.module is not None else None
+        if hook is not None:
+            return interp.call(hook, [DictV([])] if deep else [])
+        if v.cls.module is not None and (interp.get_method(v, '__reduce__') or interp.get_method(v, '__reduce_ex__') or
+                                         interp.get_method(v, '__getstate__') or interp.get_method(v, '__setstate__')):
+            raise Unmodelled('copy of an object with pickling hooks (%s)' % v.cls.name)
+        n = Obj(v.cls, {})
+        memo[id(v)] = n
+        for a, b in v.attrs.items():
+            n.attrs[a] = copy_value(interp, b, deep, memo) if deep else b
+        if hasattr(v, 'nt_fields'):
+            n.nt_fields = v.nt_fields
+        return n
+    if isinstance(v, Top):
+        interp.imprecise('copy of an unknown value')
+    return v
+
+
 def type_of(interp, v):
     if isinstance(v, Obj):
         return v.cls
@@ -832,6 +866,18 @@ def value_attr(interp, base, attr):
         return ListV([Atom('message', [base], 'str')], 'tuple')
     if tag == 'err' and attr in ('message',):
         return Top('exception attribute', ignorance=False)
+    if tag == 'err':
+        # what the error class itself defines: a read-only property, a method, a class constant
+        for m_, c_ in interp.model.find_class('XLError'):
+            lp = interp.model.lookup_property(m_, c_, attr)
+            if lp:
+                return interp.call(Func(lp[0], lp[2]), [base])
+            lm = interp.model.lookup_method(m_, c_, attr)
+            if lm:
+                return Bound(base, Func(lm[0], lm[2]))
+            ca = interp.model.class_attr(m_, c_, attr)
+            if ca is not None and isinstance(ca[2], ast.Constant):
+                return Const(ca[2].value)
     if isinstance(base, Exc):
         return Top('exception attribute', ignorance=False)
     if tag == 'timedelta' and attr in ('days', 'seconds', 'microseconds') and isinstance(base, Aff) and base.kind == 'td' and not base.coeffs:
@@ -1617,7 +1663,14 @@ def call_builtin(interp, name, args, kwargs):
             interp.imprecise('ChainMap over an unmodelled mapping')
             return Top('ChainMap')
         if short == 'defaultdict':
-            return DictV([], default='list' if (args and isinstance(args[0], TypeV) and args[0].name == 'list') else None)
+            d_ = DictV([], default='list' if (args and isinstance(args[0], TypeV) and args[0].name == 'list') else None)
+            if len(args) > 1:
+                if not isinstance(args[1], DictV):
+                    raise Unmodelled('defaultdict initialised from %r' % (args[1],))
+                d_.pairs = [[a_, b_] for a_, b_ in args[1].pairs]       # the values are the same objects
+            for kk_, vv_ in kwargs.items():
+                d_.store(Const(kk_), vv_)
+            return d_
     if name.startswith('namedtuple:'):
         parts = name.split(':')
         fields = [f for f in (parts[2] if len(parts) > 2 else '').split(',') if f]
@@ -1630,10 +1683,39 @@ def call_builtin(interp, name, args, kwargs):
         o = Obj(ClassV(None, ast.ClassDef(name=parts[1], bases=[], keywords=[], body=[], decorator_list=[])), attrs)
         o.nt_fields = fields if fields and all(f in attrs for f in fields) else None
         return o
+    if name in ('copy.deepcopy', 'copy.copy') and args:
+        return copy_value(interp, args[0], name == 'copy.deepcopy', {})
+    if name in ('threading.local', 'types.SimpleNamespace', 'argparse.Namespace') and not args:
+        # a bag of attributes (per thread: the interpreter runs one thread)
+        return Obj(ClassV(None, ast.ClassDef(name=short, bases=[], keywords=[], body=[], decorator_list=[])), dict(kwargs))
+    if name in ('threading.Lock', 'threading.RLock', 'threading.Semaphore', 'threading.BoundedSemaphore', 'multiprocessing.Lock',
+                'multiprocessing.RLock', 'contextlib.nullcontext', 'contextlib.suppress') and name != 'contextlib.suppress':
+        return Builtin('lock')
+    if name in ('lock.acquire', 'lock.__enter__', 'lock.locked'):
+        return Const(True)
+    if name in ('lock.release', 'lock.__exit__'):
+        return Const(None)
+    if name in ('threading.get_ident', 'threading.current_thread', '_thread.get_ident'):
+        return Atom('thread-id', [], 'int')
+    if name in ('cmath.isnan', 'cmath.isinf', 'cmath.isfinite') and len(args) == 1:
+        # accepts reals and complex numbers alike; for a real it is the math function
+        if args[0].tag == 'complex':
+            return Atom(name, args, 'bool')
+        if args[0].tag is not None and args[0].tag not in NUMERIC:
+            raise Raised(Exc('TypeError', 'must be real number, not %s' % args[0].tag))
+        if isinstance(args[0], Const) and isinstance(args[0].value, (int, float, complex)) and not isinstance(args[0].value, bool):
+            import cmath as _cmath
+            return Const(getattr(_cmath, short)(args[0].value))
+        return Atom('math.' + short, args, 'bool')
     if name.startswith('ply.'):
         return Top('ply object', ignorance=False)
     if name.startswith('os.'):
         return Top('os result', ignorance=False)
+    if name == 'id' and len(args) == 1 and isinstance(args[0], (Obj, ListV, DictV)):
+        # the identity of an object with identity: an opaque integer, one per object (objects may refer to each other in a circle)
+        serial = interp.state.__dict__.setdefault('_ids', {})
+        serial.setdefault(id(args[0]), len(serial) + 1)
+        return Atom('id', [Const('object #%d' % serial[id(args[0])])], 'int')
     if name in ('id', 'hash'):
         return Atom(name, args, 'int')
     if name in ('globals', 'locals', 'vars') and not args:
@@ -1866,6 +1948,21 @@ def call_method(interp, base, attr, args, kwargs, text=''):
     if tag in ('none', 'err', 'bool'):
         if tag == 'err' and attr == 'with_traceback':
             return base
+        if tag == 'err':
+            if attr == 'args':
+                msg = getattr(base, 'message', None)
+                return ListV([Const(msg) if isinstance(msg, str) else Atom('message', [base], 'str')], 'tuple')
+            # what the error class itself defines: a read-only property, a method
+            for m_, c_ in interp.model.find_class('XLError'):
+                lp = interp.model.lookup_property(m_, c_, attr)
+                if lp:
+                    return interp.call(Func(lp[0], lp[2]), [base])
+                lm = interp.model.lookup_method(m_, c_, attr)
+                if lm:
+                    return Bound(base, Func(lm[0], lm[2]))
+                ca = interp.model.class_attr(m_, c_, attr)
+                if ca is not None and isinstance(ca[2], ast.Constant):
+                    return Const(ca[2].value)
         raise Raised(Exc('AttributeError', "'%s' object has no attribute '%s'" % (tag, attr)))
     if tag in ('list', 'tuple'):
         if attr in ('index', 'count'):
